@@ -2,7 +2,7 @@
 Driver for the state-space family: a postfix stack program per line.
   leaf   : `L n p m dt A… B… C… D…`   (row major, sizes implied)
   scalar : `S q`      array : `A p m v…`
-  ops    : neg | pow k | fb sign | sel nr r… nc c… | add sub mul div append
+  ops    : neg | pow k | fb sign | lft nu ny | sel nr r… nc c… | add sub mul div append
 -/
 import CtrlVerif.Driver.Mat
 import CtrlVerif.Model.SSDyn
@@ -96,6 +96,15 @@ partial def run (stack : List (SOperand Q)) (mb : Nat := 0) : P String := do
       match stack with
       | b :: .sys G :: rest =>
         match G.feedback b sign with
+        | .ok y => let y' := force y; run (.sys y' :: rest) (max mb (bitsOf y'))
+        | .error e => pure (showErr e)
+      | _ => throw "stack"
+    | "lft" =>
+      let nu ← pInt
+      let ny ← pInt
+      match stack with
+      | b :: .sys G :: rest =>
+        match G.lft b nu ny with
         | .ok y => let y' := force y; run (.sys y' :: rest) (max mb (bitsOf y'))
         | .error e => pure (showErr e)
       | _ => throw "stack"
